@@ -48,6 +48,8 @@ def ast_content(prog):
                 return
             elif x[0] == "input" and x[1] is not None:
                 lits.append(("prompt", x[1], x[3]))
+            elif x[0] == "poke" and len(x) == 3 and ((x[1][0] == "num" and x[1][2] in (65496, 65497)) or (x[1][0] == "hex" and x[1][1] in ("FFD8", "FFD9"))):
+                return  # a speed poke: the value operand is documented to be ignored, so its literals need not survive
             for y in x:
                 walk(y)
 
